@@ -1,4 +1,9 @@
 import XfemmVerif.Model.PostInt
+import XfemmVerif.Model.PostIntE
+import Mathlib.Tactic.FieldSimp
+import Mathlib.Tactic.Positivity
+import Mathlib.Tactic.Linarith
+import Mathlib.Algebra.Order.Field.Basic
 import XfemmVerif.Properties.C11
 import Mathlib.Algebra.BigOperators.Group.Finset.Basic
 import Mathlib.Algebra.BigOperators.Ring.Finset
@@ -11,7 +16,10 @@ the selected labels) and the abstract systems of C11: block integrals over a uni
 the sum over the parts; the result depends on the selected set only (any order; toggling a block twice is a
 no-op); stored energy `½ VᵀKV` equals half the sum of terminal value × reaction when no free row carries a
 source (electrostatic `W = ½ Σ V_c q_c`; magnetostatic `W = ½ ∫A·J` is the same identity with the right-hand
-side in place of the reactions).
+side in place of the reactions).  The electrostatic integrands themselves (`Model/PostIntE.lean`: element field as
+`getElementD` accumulates it, stored `D`, recovered `E`, energy / area / volume contributions) are compared with the values the
+real post-processor prints and proved here to be the field energy density of the element's own field (non-negative), the
+element area and volume, with the element field equal to minus the gradient of an affine potential.
 -/
 open Finset
 namespace XfemmVerif.C13
@@ -101,5 +109,58 @@ theorem energy_eq_half_AJ (n : ℕ) (K : ℕ → ℕ → α) (free : ℕ → Pro
 example : blockIntegral [((0 : Nat), (2 : ℚ)), (1, 3), (0, 5)] (fun l => l == 0 || l == 1) =
     blockIntegral [((0 : Nat), (2 : ℚ)), (1, 3), (0, 5)] (fun l => l == 0) + blockIntegral [((0 : Nat), (2 : ℚ)), (1, 3), (0, 5)] (fun l => l == 1) := by
   unfold blockIntegral; norm_num
+
+
+/-! ### the electrostatic integrands (`Model/PostIntE.lean`, compared with the values the real post-processor prints) -/
+section Integrands
+open XfemmVerif.PostIntE
+variable {β : Type} [Field β] [LinearOrder β] [IsStrictOrderedRing β]
+
+/-- the area integrand is the element area in square metres, the volume integrand that area times the depth / `2πR` -/
+theorem area_contribution (axi : Bool) (depth pi lc eo ex ey : β) (t : Tri β) :
+    contribution 1 axi depth pi lc eo ex ey t = elmArea t * (lc * lc) := rfl
+
+theorem volume_contribution (axi : Bool) (depth pi lc eo ex ey : β) (t : Tri β) :
+    contribution 2 axi depth pi lc eo ex ey t = elmArea t * (lc * lc) * volFactor axi depth pi lc t := rfl
+
+/-- **the energy integrand is `½ ε₀ (εx Ex² + εy Ey²)` times the element volume** — the field energy density of the element's
+    own field — hence non-negative for positive permittivities -/
+theorem energy_contribution (axi : Bool) (depth pi lc eo ex ey : β) (t : Tri β) (hex : ex ≠ 0) (hey : ey ≠ 0) (heo : eo ≠ 0) :
+    contribution 0 axi depth pi lc eo ex ey t =
+      elmArea t * (lc * lc) * volFactor axi depth pi lc t *
+        (eo * (ex * ((elemE lc t).1 * (elemE lc t).1) + ey * ((elemE lc t).2 * (elemE lc t).2))) / 2 := by
+  simp only [contribution, elemD, fieldFromD, reDconjE]
+  field_simp
+  ring
+
+theorem energy_contribution_nonneg (axi : Bool) (depth pi lc eo ex ey : β) (t : Tri β) (hex : 0 < ex) (hey : 0 < ey) (heo : 0 < eo)
+    (hvol : 0 ≤ elmArea t * (lc * lc) * volFactor axi depth pi lc t) :
+    0 ≤ contribution 0 axi depth pi lc eo ex ey t := by
+  rw [energy_contribution axi depth pi lc eo ex ey t (ne_of_gt hex) (ne_of_gt hey) (ne_of_gt heo)]
+  apply div_nonneg _ (by norm_num)
+  apply mul_nonneg hvol
+  apply mul_nonneg (le_of_lt heo)
+  apply add_nonneg
+  · exact mul_nonneg (le_of_lt hex) (mul_self_nonneg _)
+  · exact mul_nonneg (le_of_lt hey) (mul_self_nonneg _)
+
+/-- **the element field is minus the gradient**: for nodal values of an affine potential `V = a + b x + c y` the field the
+    post-processor stores is `−(b, c)/lc` (per metre) -/
+theorem elemE_affine (lc a b c : β) (t : Tri β) (hlc : lc ≠ 0)
+    (hda : (t.y1 - t.y2) * (t.x0 - t.x2) - (t.y2 - t.y0) * (t.x2 - t.x1) ≠ 0)
+    (h0 : t.v0 = a + b * t.x0 + c * t.y0) (h1 : t.v1 = a + b * t.x1 + c * t.y1) (h2 : t.v2 = a + b * t.x2 + c * t.y2) :
+    elemE lc t = (-b / lc, -c / lc) := by
+  simp only [elemE, h0, h1, h2, Prod.mk.injEq]
+  set da := (t.y1 - t.y2) * (t.x0 - t.x2) - (t.y2 - t.y0) * (t.x2 - t.x1) with hdadef
+  have hd : da * lc ≠ 0 := mul_ne_zero hda hlc
+  constructor
+  · have : 0 - (a + b * t.x0 + c * t.y0) * (t.y1 - t.y2) / (da * lc) - (a + b * t.x1 + c * t.y1) * (t.y2 - t.y0) / (da * lc) -
+        (a + b * t.x2 + c * t.y2) * (t.y0 - t.y1) / (da * lc) = -(b * da) / (da * lc) := by rw [hdadef]; ring
+    rw [this, neg_div, neg_div, mul_comm b da, mul_div_mul_left _ _ hda]
+  · have : 0 - (a + b * t.x0 + c * t.y0) * (t.x2 - t.x1) / (da * lc) - (a + b * t.x1 + c * t.y1) * (t.x0 - t.x2) / (da * lc) -
+        (a + b * t.x2 + c * t.y2) * (t.x1 - t.x0) / (da * lc) = -(c * da) / (da * lc) := by rw [hdadef]; ring
+    rw [this, neg_div, neg_div, mul_comm c da, mul_div_mul_left _ _ hda]
+
+end Integrands
 
 end XfemmVerif.C13
